@@ -26,6 +26,9 @@ Decides:
  L ledger callers        only the listed functions call State::remove / State::get / State::set_scope (who-may-call registry).
  K marker only           the tokenizer drops an item exactly when ArgScanner::check_next says so: check_next returns true only for
                           `--bpaf-complete-rev=N` (table: an ordinary item, also one that merely starts with `--bpaf-complete-`, gives false).
+ L forkers               only the listed functions clone the State (who-may-fork registry); a pass-through wrapper works on the state it was given.
+ T context free          the tokenizer only appends to / measures / rolls back the list under construction.
+ A equals value          `--name=` carries the empty value: no item vanishes between argv and the ledger (shared with C02).
 Does not decide: that no combination of shapes double-delivers an item through scope arithmetic."""
 import re
 from core import *
